@@ -63,7 +63,8 @@ def unit(rng):
         g._gen(("ref", "importDeclaration"), rng, 8, toks, (0, 0, 1))
     for _ in range(rng.choice([1, 1, 2])):
         g._gen(("ref", "typeDeclaration"), rng, rng.choice([9, 12, 15, 18]), toks, (0, 0, 1, 1, 2))
-    return g4gen.render(toks, rng)
+    # half of the units carry comments between their tokens (every small comment shape: the todo scan reads them)
+    return g4gen.render(toks, rng, comments=rng.choice([None, 0.03, 0.1]))
 
 
 MAPPINGS = ["RequestMapping", "GetMapping", "PostMapping", "PutMapping", "DeleteMapping", "PatchMapping", "ServiceMethod", "Override", "Test", "Ignore"]
@@ -111,6 +112,8 @@ def spring_unit(rng):
         lines.append("    %s%s h%d(%s)%s" % (rng.choice(["public ", "", "protected "]) if kind == "class" else "", rng.choice(["void", "String", "ResponseEntity<List<T>>", "<T> T"]), j,
                                           ", ".join(params), body))
     lines.append("}")
+    if rng.random() < 0.4:
+        lines = [ln + (" " + rng.choice(g4gen.BLOCK_COMMENTS + g4gen.LINE_COMMENTS) if rng.random() < 0.3 else "") for ln in lines]
     return "\n".join(lines) + "\n"
 
 
@@ -134,9 +137,9 @@ def rewrite(text, rng):
     if r < 0.3:
         return text
     if r < 0.6:
-        return text.replace("{", "{ /* c */").replace(";", " ;\n")
+        return text.replace("{", "{ " + rng.choice(g4gen.BLOCK_COMMENTS)).replace(";", " ;\n")
     if r < 0.8:
-        return "// head é\n" + text.replace("\t", "    ")
+        return rng.choice(g4gen.LINE_COMMENTS) + "\n" + "// head é\n" + text.replace("\t", "    ")
     return text.replace("\n", "\n\n")
 
 
@@ -208,7 +211,7 @@ def nontrivial(case, mo):
     return True
 
 
-RULE = "16 x 30 (quick) / 32 x 1500 (thorough) trees of 1-2 files: 80% random sentences of languages/java/JavaParser.g4 (read from /repo on every run) + repository fixtures under layout rewrites; only files the tool's own parser accepts without syntax error count"
+RULE = "16 x 30 (quick) / 32 x 1500 (thorough) trees of 1-2 files: 80% random sentences of languages/java/JavaParser.g4 (read from /repo on every run) (half of them with block / line comments of every small shape between tokens) + controller-shaped units + repository fixtures under layout / comment rewrites; only files the tool's own parser accepts without syntax error count"
 ASSUMPTIONS = []
 TRUSTED = ["ANTLR runtime"]
 WITNESSES = {}
